@@ -8,6 +8,7 @@ import (
 	"flag"
 	"fmt"
 	"os"
+	"os/exec"
 	"path/filepath"
 	"regexp"
 	"sort"
@@ -24,12 +25,21 @@ type PropFunc struct {
 	Skip  []string `json:"skip,omitempty"`  // obligations (base names) left undecided on the unchanged tree: not part of the claim, listed in the evidence
 }
 
+type BoundedTest struct {
+	Pkg   string `json:"pkg"`   // package directory relative to the repository root ("." for the root package)
+	File  string `json:"file"`  // in-package Go test file, relative to /verif
+	Run   string `json:"run"`   // test function
+	Bound string `json:"bound"` // what is enumerated
+	Why   string `json:"why"`   // why the functions are outside the verifier's reach
+}
+
 type PropSpec struct {
-	Title     string     `json:"title"`
-	Functions []PropFunc `json:"functions"`
-	Trusted   []string   `json:"trusted_base"`
-	Note      string     `json:"note"`
-	Bounded   []string   `json:"bounded_note,omitempty"`
+	Title     string        `json:"title"`
+	Functions []PropFunc    `json:"functions"`
+	Tests     []BoundedTest `json:"bounded_tests,omitempty"`
+	Trusted   []string      `json:"trusted_base"`
+	Note      string        `json:"note"`
+	Bounded   []string      `json:"bounded_note,omitempty"`
 }
 
 type KnownFinding struct {
@@ -378,6 +388,35 @@ func cmdCheck(args []string) int {
 	if len(slows) > 8 {
 		slows = slows[:8]
 	}
+	// bounded stand-ins for functions outside the verifier's reach (goroutines, container/heap ...): small-scope
+	// enumeration on the real code through `go test -overlay`; labelled bounded, never counted as proved
+	type boundedRun struct {
+		Test   string  `json:"test"`
+		Bound  string  `json:"bound"`
+		Why    string  `json:"why"`
+		Cases  int     `json:"cases"`
+		Passed bool    `json:"passed"`
+		Wall   float64 `json:"wall_s"`
+	}
+	var boundedRuns []boundedRun
+	type boundedFail struct {
+		t      BoundedTest
+		output string
+		input  string
+	}
+	var boundedFails []boundedFail
+	for _, bt := range ps.Tests {
+		tb := time.Now()
+		out, cases, input, ok := runBoundedTest(*repo, bt)
+		boundedRuns = append(boundedRuns, boundedRun{bt.File + ":" + bt.Run, bt.Bound, bt.Why, cases, ok, round2(time.Since(tb).Seconds())})
+		if !ok {
+			if input == "" && !strings.Contains(out, "--- FAIL") {
+				engineErrors = append(engineErrors, "bounded stand-in "+bt.Run+" could not be run: "+firstLine(out))
+			} else {
+				boundedFails = append(boundedFails, boundedFail{bt, out, input})
+			}
+		}
+	}
 	// output
 	ev := *evDir
 	if ev == "" {
@@ -400,6 +439,22 @@ func cmdCheck(args []string) int {
 		rp := writeReplay(ev, prop, f.o, *repo)
 		suffix := " no-failing-input-found"
 		lines = append(lines, fmt.Sprintf("VIOLATION property=%s replay=%s obligation=%s status=%s%s", prop, rp, f.o.Name, f.o.Res.Status, suffix))
+		exit = 1
+	}
+	for _, bf := range boundedFails {
+		violations++
+		dir := filepath.Join(ev, "replay", prop)
+		os.MkdirAll(dir, 0o755)
+		rp := filepath.Join(dir, "bounded_"+sanitize(bf.t.Run)+".json")
+		rec := map[string]interface{}{"property": prop, "kind": "bounded stand-in (small-scope enumeration on the real code)", "test": bf.t.File, "run": bf.t.Run,
+			"failing_input": bf.input, "output": bf.output, "rerun": fmt.Sprintf("./tools_replay.sh %s %s %s %s", bf.t.Pkg, bf.t.File, bf.t.Run, *repo)}
+		data, _ := json.MarshalIndent(rec, "", " ")
+		os.WriteFile(rp, append(data, '\n'), 0o644)
+		suffix := ""
+		if bf.input == "" {
+			suffix = " no-failing-input-found"
+		}
+		lines = append(lines, fmt.Sprintf("VIOLATION property=%s replay=%s bounded-test=%s failing-input=%q%s", prop, rp, bf.t.Run, bf.input, suffix))
 		exit = 1
 	}
 	for _, l := range lines {
@@ -457,6 +512,9 @@ func cmdCheck(args []string) int {
 		"signed int/int64 arithmetic is treated as mathematical (no overflow obligation); sized unsigned and int8/16/32 arithmetic is exact modulo 2^N",
 		"Go semantics of the supported subset as implemented by rvc (evaluation order, append growth as 'some capacity >= needed', copy as memmove, zero values); allocation never fails other than through the make# obligation",
 		"SMT solvers z3 5.1.0 / z3 4.8.12 / cvc5 1.0 are trusted; an unsat from any one of them is accepted")
+	for _, br := range boundedRuns {
+		assumptions = append(assumptions, fmt.Sprintf("BOUNDED (not proved): %s checked only by small-scope enumeration (%s; %d cases this run) because %s", br.Test, br.Bound, br.Cases, br.Why))
+	}
 	for _, l := range lemmaGaps {
 		assumptions = append(assumptions, "lemma used as a premise although part of its own proof is undecided (listed under coverage.undecided_excluded): "+l)
 	}
@@ -498,6 +556,7 @@ func cmdCheck(args []string) int {
 		"undecided_excluded":       undecided,
 		"undecided_attempted":      map[string]int{"attempted": len(extra), "discharged_this_run": extraDone},
 		"lemma_library":            lemmaLib,
+		"bounded_standins":         boundedRuns,
 		"inlined_uncontracted":     inlined,
 		"known_findings_seen":      knownList,
 		"engine_errors":            engineErrors,
@@ -578,7 +637,7 @@ func writeReplay(ev, prop string, o *Obligation, repo string) string {
 		}
 	}
 	rec := map[string]interface{}{
-		"solver_model": model,
+		"solver_model":   model,
 		"property":       prop,
 		"obligation":     o.Name,
 		"kind":           o.Kind,
@@ -638,4 +697,42 @@ func tagName(t string) string {
 		return t[:i]
 	}
 	return t
+}
+
+var boundedCasesRe = regexp.MustCompile(`BOUNDED-CASES (\d+)`)
+var failingInputRe = regexp.MustCompile(`FAILING-INPUT (.*)`)
+
+// runBoundedTest runs an in-package Go test of /verif against the repository through an overlay (nothing is written
+// into the repository) and returns its output, the number of cases it reports, and the failing input if any.
+func runBoundedTest(repo string, bt BoundedTest) (out string, cases int, input string, ok bool) {
+	scratch := os.Getenv("VERIF_SCRATCH")
+	if scratch == "" {
+		scratch = "/var/tmp"
+	}
+	d, err := os.MkdirTemp(scratch, "rvc-bounded-")
+	if err != nil {
+		return err.Error(), 0, "", false
+	}
+	defer os.RemoveAll(d)
+	src := filepath.Join(verifDir(), bt.File)
+	dst := filepath.Join(repo, bt.Pkg, "zz_bounded_verif_test.go")
+	ov := fmt.Sprintf("{\"Replace\": {%q: %q}}\n", dst, src)
+	ovf := filepath.Join(d, "ov.json")
+	os.WriteFile(ovf, []byte(ov), 0o644)
+	cmd := exec.Command("go", "test", "-overlay", ovf, "-vet=off", "-count=1", "-timeout", "600s", "-v", "-run", "^"+bt.Run+"$", ".")
+	cmd.Dir = filepath.Join(repo, bt.Pkg)
+	cmd.Env = append(os.Environ(), "GOFLAGS=-mod=mod", "GOPROXY=off", "GOSUMDB=off", "GOTOOLCHAIN=local")
+	b, err := cmd.CombinedOutput()
+	out = string(b)
+	if len(out) > 8000 {
+		out = out[len(out)-8000:]
+	}
+	if m := boundedCasesRe.FindStringSubmatch(out); m != nil {
+		cases, _ = strconv.Atoi(m[1])
+	}
+	if m := failingInputRe.FindStringSubmatch(out); m != nil {
+		input = strings.TrimSpace(m[1])
+	}
+	ok = err == nil && strings.Contains(out, "\nok") && cases > 0
+	return
 }
